@@ -22,7 +22,7 @@ RULE = ('(a) registry histories: generated sequences of clock advances, is_alive
         'operations (call_and_wait, run, as_completed incl. failing tasks) on the fake transport must leave no worker acquired; '
         'non-trivial = a late heartbeat after an unregister / two pools touching the same worker with >= 1 preemption / a failing '
         'task; distinct = distinct canonical case JSON'
-        '; also: further client handles made for the same address (new_client), other workers joining the registry (1..130), life/death notices through the real heartbeat handler with several kinds of truth values, a worker dying while acquired, early-closed as_completed, pools built over re-timed worker objects')
+        '; also: clients with a call timeout shorter / longer than the heartbeat threshold, further client handles made for the same address (new_client), other workers joining the registry (1..130), life/death notices through the real heartbeat handler with several kinds of truth values, a worker dying while acquired, early-closed as_completed, pools built over re-timed worker objects')
 ASSUMPTIONS = [
     'harness clock replaces time in courier_utils so heartbeat staleness is driven by the generated history, not by machine load',
     'same scheduler trusted base as C04 for the concurrent parts; the transport is the in-process fake (vlib/fake_courier)',
@@ -70,7 +70,8 @@ def run_registry(case):
   srv.Start()
   courier.PLANS[(addr, 'heartbeat')] = ['hold'] * 200
   courier.PLANS[(addr, 'maybe_make')] = ['hold'] * 200
-  client = courier_utils.CourierClient(addr, heartbeat_threshold_secs=T)
+  # a call timeout (shorter or longer than the heartbeat threshold) is no part of liveness
+  client = courier_utils.CourierClient(addr, heartbeat_threshold_secs=T, call_timeout=case.get('call_timeout', 0))
   reg = courier_utils.worker_registry()
   reg.data.clear()       # the registry is process-global: every case starts from an empty one (cases must replay on their own)
   what = f'ops={case["ops"]}'
@@ -179,7 +180,7 @@ def strat_registry(tier):
       late = draw(st.sampled_from([[['refresh', 0.0]], [['release', 0, True]], [['refresh', -50.0]]]))
       ops[i:i] = [['call'], ['unregister'], draw(st.sampled_from([['others_join', 1], ['others_join', 127], ['others_join', 130],
                                                                   ['new_client']]))] + late + [['is_alive']]
-    return {'ops': ops}
+    return {'ops': ops, 'call_timeout': draw(st.sampled_from([0, 0, None, 30.0, 3 * T]))}
   return s()
 
 
